@@ -494,8 +494,10 @@ def _await_descriptor_upload(tor_protocol, onion, progress, await_all_uploads):
     # caller can do "d = _await_descriptor_upload()", then add the
     # service.
     yield tor_protocol.add_event_listener('HS_DESC', hs_desc)
-    yield uploaded
-    yield tor_protocol.remove_event_listener('HS_DESC', hs_desc)
+    try:
+        yield uploaded
+    finally:
+        yield tor_protocol.remove_event_listener('HS_DESC', hs_desc)
     # ensure we show "100%" at the end
     if progress:
         if await_all_uploads:
